@@ -707,4 +707,376 @@ theorem readAllAux_total (fuel : Nat) : ∀ (st : St) (lines : List Bytes), meas
         · exact hsome
         · exact e r hr
 
+/-! ### the readers see lines only through `bytes.TrimSpace` -/
+
+/-- two lists of lines that are pairwise equal after `bytes.TrimSpace` -/
+inductive TrimEq : List Bytes → List Bytes → Prop
+  | nil : TrimEq [] []
+  | cons (l l' : Bytes) (ls ls' : List Bytes) :
+      trimSpace l = trimSpace l' → TrimEq ls ls' → TrimEq (l :: ls) (l' :: ls')
+
+theorem TrimEq.refl (ls : List Bytes) : TrimEq ls ls := by
+  induction ls with
+  | nil => exact .nil
+  | cons l ls ih => exact .cons l l ls ls rfl ih
+
+theorem TrimEq.length_eq {a b : List Bytes} (h : TrimEq a b) : a.length = b.length := by
+  induction h with
+  | nil => rfl
+  | cons _ _ _ _ _ _ ih => simp [ih]
+
+theorem read_congr {lines lines' : List Bytes} (h : TrimEq lines lines') : ∀ (st st' : St) (ret : Ret) (rest : List Bytes),
+    read {} st lines = .ok (ret, st', rest) →
+      ∃ rest', read {} st lines' = .ok (ret, st', rest') ∧ TrimEq rest rest' := by
+  induction h with
+  | nil => intro st st' ret rest hr; exact ⟨rest, hr, TrimEq.refl rest⟩
+  | cons l l' ls ls' heq htail ih =>
+    intro st st' ret rest hr
+    unfold read at hr ⊢
+    simp only [] at hr ⊢
+    rw [← heq]
+    by_cases h0 : ((trimSpace l).length == 0) = true
+    · simp only [h0, if_true] at hr ⊢
+      exact ih _ _ _ _ hr
+    · simp only [h0] at hr ⊢
+      by_cases h1 : hasPrefix (trimSpace l) ({} : Cfg).idPrefix = true
+      · simp only [h1, if_true] at hr ⊢
+        obtain ⟨⟨w, e⟩, hv⟩ := header_total _ h1
+        cases hw : st.working with
+        | none =>
+          simp only [hw, hv, bind, Except.bind] at hr ⊢
+          exact ih _ _ _ _ hr
+        | some w0 =>
+          simp [hw, hv, bind, Except.bind, pure, Except.pure] at hr ⊢
+          obtain ⟨rfl, rfl, rfl⟩ := hr
+          exact ⟨ls', ⟨rfl, rfl, rfl⟩, htail⟩
+      · simp only [h1] at hr ⊢
+        have h2 : hasPrefix (trimSpace l) ({} : Cfg).seqPrefix = true := by simp [hasPrefix]
+        simp only [h2, if_true] at hr ⊢
+        cases hw : st.working with
+        | none =>
+          simp [hw, pure, Except.pure] at hr ⊢
+          obtain ⟨rfl, rfl, rfl⟩ := hr
+          exact ⟨ls', ⟨rfl, rfl, rfl⟩, htail⟩
+        | some w0 =>
+          simp only [hw, sliceFrom, bind, Except.bind, List.length_nil, Nat.zero_le, if_true] at hr ⊢
+          exact ih _ _ _ _ hr
+
+theorem readAllAux_trimEq (fuel : Nat) : ∀ (st : St) (lines lines' : List Bytes), TrimEq lines lines' →
+    readAllAux {} fuel st lines = readAllAux {} fuel st lines' := by
+  induction fuel with
+  | zero => intro _ _ _ _; rfl
+  | succ f ih =>
+    intro st lines lines' h
+    obtain ⟨⟨ret, st', rest⟩, hv⟩ := read_total lines st
+    obtain ⟨rest', hv', hrest⟩ := read_congr h st st' ret rest hv
+    simp only [readAllAux, hv, hv']
+    split
+    · rfl
+    · rw [ih st' rest rest' hrest]
+
+/-! ### CRLF instead of LF, for every input -/
+
+/-- every LF replaced by CR LF -/
+def toCRLF (bs : Bytes) : Bytes := bs.flatMap (fun b => if b == 10 then [13, 10] else [b])
+
+theorem splitLinesAux_toCRLF (bs : Bytes) : ∀ cur : Bytes,
+    TrimEq (splitLinesAux (toCRLF bs) cur) (splitLinesAux bs cur) := by
+  induction bs with
+  | nil => intro cur; exact TrimEq.refl _
+  | cons b bs ih =>
+    intro cur
+    by_cases hb : (b == 10) = true
+    · have hb' : b = 10 := by simpa using hb
+      have e : toCRLF (b :: bs) = 13 :: 10 :: toCRLF bs := by simp [toCRLF, hb']
+      rw [e]
+      simp only [splitLinesAux, hb, if_true]
+      simp only [show ((13 : UInt8) == 10) = false from rfl, Bool.false_eq_true, if_false,
+        show ((10 : UInt8) == 10) = true from rfl, if_true]
+      refine .cons _ _ _ _ ?_ (ih [])
+      have h1 : (dropCR (13 :: cur)).reverse = cur.reverse := rfl
+      rw [h1]
+      exact (trimSpace_stripCR cur.reverse |>.symm ▸ by simp [stripCR])
+    · have hb' : ¬ b = 10 := by simpa using hb
+      have e : toCRLF (b :: bs) = b :: toCRLF bs := by simp [toCRLF, hb']
+      rw [e]
+      simp only [splitLinesAux, hb]
+      exact ih (b :: cur)
+
+/-- **CRLF, every input** (FASTA): for every byte string — a valid file or not — replacing
+    each LF by CR LF does not change the call history of the reader. -/
+theorem readAll_toCRLF (bs : Bytes) : readAll {} (toCRLF bs) = readAll {} bs := by
+  have h := splitLinesAux_toCRLF bs []
+  unfold readAll splitLines
+  simp only []
+  rw [h.length_eq]
+  exact readAllAux_trimEq _ _ _ _ h
+
+/-! ### what the FASTA reader sees of an input: its non-blank lines, trimmed -/
+
+theorem TrimEq.symm {a b : List Bytes} (h : TrimEq a b) : TrimEq b a := by
+  induction h with
+  | nil => exact .nil
+  | cons l l' ls ls' e _ ih => exact .cons l' l ls' ls e.symm ih
+
+theorem TrimEq.trans {a b c : List Bytes} (h1 : TrimEq a b) (h2 : TrimEq b c) : TrimEq a c := by
+  induction h1 generalizing c with
+  | nil => cases h2; exact .nil
+  | cons l l' ls ls' e _ ih =>
+    cases h2 with
+    | cons _ l'' _ ls'' e2 h2' => exact .cons l l'' ls ls'' (e.trans e2) (ih h2')
+
+theorem trimEq_of_map_eq : ∀ (a b : List Bytes), a.map trimSpace = b.map trimSpace → TrimEq a b
+  | [], [], _ => .nil
+  | [], _ :: _, h => by simp at h
+  | _ :: _, [], h => by simp at h
+  | x :: xs, y :: ys, h => by
+    simp only [List.map_cons, List.cons.injEq] at h
+    exact .cons x y xs ys h.1 (trimEq_of_map_eq xs ys h.2)
+
+/-- the lines that are not blank -/
+def nonblank (lines : List Bytes) : List Bytes := lines.filter (fun l => !(trimSpace l).isEmpty)
+
+/-- what the FASTA reader can see of a byte string -/
+def view (bs : Bytes) : List Bytes := (nonblank (splitLines bs)).map trimSpace
+
+theorem nonblank_cons_blank (l : Bytes) (ls : List Bytes) (h : trimSpace l = []) : nonblank (l :: ls) = nonblank ls := by
+  simp [nonblank, h]
+
+theorem nonblank_cons_nonblank (l : Bytes) (ls : List Bytes) (h : trimSpace l ≠ []) :
+    nonblank (l :: ls) = l :: nonblank ls := by
+  simp [nonblank, h]
+
+/-- blank lines are invisible to one call of `read` -/
+theorem read_nonblank (lines : List Bytes) : ∀ (st st' : St) (ret : Ret) (rest : List Bytes),
+    read {} st lines = .ok (ret, st', rest) → read {} st (nonblank lines) = .ok (ret, st', nonblank rest) := by
+  induction lines with
+  | nil => intro st st' ret rest hr
+           have : rest = [] := by
+             unfold read at hr
+             cases hw : st.working <;> simp [hw, pure, Except.pure] at hr <;> exact hr.2.2
+           subst this; simpa [nonblank] using hr
+  | cons l ls ih =>
+    intro st st' ret rest hr
+    by_cases hb : trimSpace l = []
+    · rw [nonblank_cons_blank l ls hb]
+      rw [read_blank st l ls hb] at hr
+      exact ih _ _ _ _ hr
+    · rw [nonblank_cons_nonblank l ls hb]
+      have h0 : ((trimSpace l).length == 0) = false := by
+        cases h : trimSpace l with
+        | nil => exact absurd h hb
+        | cons a t => simp
+      unfold read at hr ⊢
+      simp only [h0] at hr ⊢
+      by_cases h1 : hasPrefix (trimSpace l) ({} : Cfg).idPrefix = true
+      · simp only [h1, if_true] at hr ⊢
+        obtain ⟨⟨w, e⟩, hv⟩ := header_total _ h1
+        cases hw : st.working with
+        | none =>
+          simp only [hw, hv, bind, Except.bind] at hr ⊢
+          exact ih _ _ _ _ hr
+        | some w0 =>
+          simp [hw, hv, bind, Except.bind, pure, Except.pure] at hr ⊢
+          obtain ⟨rfl, rfl, rfl⟩ := hr
+          exact ⟨rfl, rfl, rfl⟩
+      · simp only [h1] at hr ⊢
+        have h2 : hasPrefix (trimSpace l) ({} : Cfg).seqPrefix = true := by simp [hasPrefix]
+        simp only [h2, if_true] at hr ⊢
+        cases hw : st.working with
+        | none =>
+          simp [hw, pure, Except.pure] at hr ⊢
+          obtain ⟨rfl, rfl, rfl⟩ := hr
+          exact ⟨rfl, rfl, rfl⟩
+        | some w0 =>
+          simp only [hw, sliceFrom, bind, Except.bind, List.length_nil, Nat.zero_le, if_true] at hr ⊢
+          exact ih _ _ _ _ hr
+
+theorem readAllAux_nonblank (fuel : Nat) : ∀ (st : St) (lines : List Bytes),
+    readAllAux {} fuel st lines = readAllAux {} fuel st (nonblank lines) := by
+  induction fuel with
+  | zero => intro _ _; rfl
+  | succ f ih =>
+    intro st lines
+    obtain ⟨⟨ret, st', rest⟩, hv⟩ := read_total lines st
+    have hv' := read_nonblank lines st st' ret rest hv
+    simp only [readAllAux, hv, hv']
+    split
+    · rfl
+    · rw [ih st' rest]
+
+/-- more budget than needed does not change the history -/
+theorem readAllAux_fuel (f : Nat) : ∀ (f' : Nat) (st : St) (lines : List Bytes),
+    measure st lines < f → measure st lines < f' → readAllAux {} f st lines = readAllAux {} f' st lines := by
+  induction f with
+  | zero => intro f' st lines h; omega
+  | succ f ih =>
+    intro f' st lines h1 h2
+    obtain ⟨g, rfl⟩ : ∃ g, f' = g + 1 := ⟨f' - 1, by omega⟩
+    obtain ⟨⟨ret, st', rest⟩, hv⟩ := read_total lines st
+    obtain ⟨_, hdec⟩ := read_progress lines st st' ret rest hv
+    simp only [readAllAux, hv]
+    split
+    · rfl
+    · rename_i he
+      have := hdec he
+      rw [ih g st' rest (by omega) (by omega)]
+
+theorem nonblank_length_le (lines : List Bytes) : (nonblank lines).length ≤ lines.length := by
+  simp [nonblank]; exact List.length_filter_le _ _
+
+/-- **The FASTA reader sees an input only through its non-blank lines, trimmed.**  Two byte
+    strings — valid files or not — with the same `view` give the same call history. -/
+theorem readAll_view (bs bs' : Bytes) (h : view bs = view bs') : readAll {} bs = readAll {} bs' := by
+  have hte : TrimEq (nonblank (splitLines bs)) (nonblank (splitLines bs')) := trimEq_of_map_eq _ _ h
+  have hlen := hte.length_eq
+  have l1 := nonblank_length_le (splitLines bs)
+  have l2 := nonblank_length_le (splitLines bs')
+  unfold readAll
+  simp only []
+  rw [readAllAux_nonblank _ _ (splitLines bs), readAllAux_nonblank _ _ (splitLines bs'),
+    readAllAux_trimEq _ _ _ _ hte]
+  exact readAllAux_fuel _ _ _ _ (by simp [measure]; omega) (by simp [measure]; omega)
+
+theorem view_toCRLF (bs : Bytes) : view (toCRLF bs) = view bs := by
+  have h := splitLinesAux_toCRLF bs []
+  unfold view splitLines
+  generalize splitLinesAux (toCRLF bs) [] = a at h
+  generalize splitLinesAux bs [] = b at h
+  induction h with
+  | nil => rfl
+  | cons l l' ls ls' e _ ih =>
+    by_cases hb : trimSpace l = []
+    · rw [nonblank_cons_blank l ls hb, nonblank_cons_blank l' ls' (e ▸ hb)]; exact ih
+    · rw [nonblank_cons_nonblank l ls hb, nonblank_cons_nonblank l' ls' (e ▸ hb)]
+      simp [e, ih]
+
+/-- the view of a list of lines -/
+def viewOf (lines : List Bytes) : List Bytes := (nonblank lines).map trimSpace
+
+theorem viewOf_cons (l : Bytes) (ls : List Bytes) :
+    viewOf (l :: ls) = (if trimSpace l = [] then [] else [trimSpace l]) ++ viewOf ls := by
+  by_cases hb : trimSpace l = []
+  · simp [viewOf, nonblank_cons_blank l ls hb, hb]
+  · simp [viewOf, nonblank_cons_nonblank l ls hb, hb]
+
+theorem view_eq_viewOf (bs : Bytes) : view bs = viewOf (splitLines bs) := rfl
+
+theorem viewOf_snoc_lf (bs : Bytes) : ∀ cur : Bytes,
+    viewOf (splitLinesAux (bs ++ [10]) cur) = viewOf (splitLinesAux bs cur) := by
+  induction bs with
+  | nil =>
+    intro cur
+    have e : trimSpace (dropCR cur).reverse = trimSpace cur.reverse := by
+      have := trimSpace_stripCR cur.reverse
+      simpa [stripCR] using this
+    simp only [List.nil_append, splitLinesAux, show ((10 : UInt8) == 10) = true from rfl, if_true]
+    cases cur with
+    | nil => simp [viewOf_cons, dropCR, trimSpace, trimLeft_nil, trimRight, trimRev_nil, viewOf, nonblank]
+    | cons c cs =>
+      simp only [List.isEmpty_cons, Bool.false_eq_true, if_false, viewOf_cons, e]
+      simp
+  | cons b bs ih =>
+    intro cur
+    by_cases hb : (b == 10) = true
+    · simp only [List.cons_append, splitLinesAux, hb, if_true, viewOf_cons, ih []]
+    · simp only [List.cons_append, splitLinesAux, hb]
+      exact ih (b :: cur)
+
+/-- a final newline more or less is invisible -/
+theorem view_snoc_lf (bs : Bytes) : view (bs ++ [10]) = view bs := viewOf_snoc_lf bs []
+
+theorem trimSpace_append_blanks (l blanks : Bytes) (hb : ∀ b ∈ blanks, isAsciiSpace b = true) :
+    trimSpace (l ++ blanks) = trimSpace l := by
+  induction blanks generalizing l with
+  | nil => simp
+  | cons x xs ih =>
+    rw [show l ++ x :: xs = (l ++ [x]) ++ xs by simp, ih _ (fun b hb' => hb b (by simp [hb'])),
+      trimSpace_snoc_space l x (hb x (by simp))]
+
+theorem trim_dropCR_reverse (cur : Bytes) : trimSpace (dropCR cur).reverse = trimSpace cur.reverse := by
+  have := trimSpace_stripCR cur.reverse
+  simpa [stripCR] using this
+
+/-- blanks in front of a line terminator (or at the very end of the input) are invisible -/
+theorem viewOf_trailing_blanks (a blanks b : Bytes) (hb : ∀ x ∈ blanks, isBlank x = true) : ∀ cur : Bytes,
+    viewOf (splitLinesAux (a ++ blanks ++ 10 :: b) cur) = viewOf (splitLinesAux (a ++ 10 :: b) cur) ∧
+    viewOf (splitLinesAux (a ++ blanks) cur) = viewOf (splitLinesAux a cur) := by
+  have hnolf : ∀ x ∈ blanks, x ≠ 10 := fun x hx => isBlank_ne_lf (hb x hx)
+  have hsp : ∀ x ∈ blanks.reverse.reverse, isAsciiSpace x = true := fun x hx => isBlank_space (hb x (by simpa using hx))
+  induction a with
+  | nil =>
+    intro cur
+    have key : trimSpace (blanks.reverse ++ cur).reverse = trimSpace cur.reverse := by
+      rw [List.reverse_append]
+      exact trimSpace_append_blanks _ _ hsp
+    constructor
+    · simp only [List.nil_append]
+      rw [splitLinesAux_line blanks b cur hnolf]
+      have e2 : splitLinesAux (10 :: b) cur = (dropCR cur).reverse :: splitLinesAux b [] := by
+        simp [splitLinesAux]
+      rw [e2, viewOf_cons, viewOf_cons, trim_dropCR_reverse, trim_dropCR_reverse, key]
+    · simp only [List.nil_append]
+      rw [splitLinesAux_last blanks cur hnolf]
+      simp only [splitLinesAux]
+      by_cases hc : cur = []
+      · subst hc
+        by_cases hbl : blanks = []
+        · subst hbl; simp
+        · have : trimSpace blanks = [] := by
+            have := trimSpace_append_blanks [] blanks (fun x hx => isBlank_space (hb x hx))
+            simpa [trimSpace, trimLeft_nil, trimRight, trimRev_nil] using this
+          simp [hbl, viewOf_cons, this, viewOf, nonblank]
+      · have h1 : (blanks.reverse ++ cur).isEmpty = false := by simp [hc]
+        have h2 : cur.isEmpty = false := by simp [hc]
+        simp only [h1, h2, Bool.false_eq_true, if_false, viewOf_cons, key]
+  | cons x a ih =>
+    intro cur
+    by_cases hx : (x == 10) = true
+    · simp only [List.cons_append, splitLinesAux, hx, if_true, viewOf_cons]
+      rw [(ih []).1, (ih []).2]
+      exact ⟨rfl, rfl⟩
+    · simp only [List.cons_append, splitLinesAux, hx]
+      exact ih (x :: cur)
+
+theorem viewOf_blank_line_start (blanks b : Bytes) (hb : ∀ x ∈ blanks, isBlank x = true) :
+    viewOf (splitLinesAux (blanks ++ 10 :: b) []) = viewOf (splitLinesAux b []) := by
+  have hnolf : ∀ x ∈ blanks, x ≠ 10 := fun x hx => isBlank_ne_lf (hb x hx)
+  rw [splitLinesAux_line blanks b [] hnolf, viewOf_cons, trim_dropCR_reverse]
+  have : trimSpace blanks = [] := by
+    have := trimSpace_append_blanks [] blanks (fun x hx => isBlank_space (hb x hx))
+    simpa [trimSpace, trimLeft_nil, trimRight, trimRev_nil] using this
+  simp [this]
+
+/-- a blank line more or less (between two lines, before the first, after the last) is invisible -/
+theorem viewOf_blank_line (a blanks b : Bytes) (hb : ∀ x ∈ blanks, isBlank x = true) : ∀ cur : Bytes,
+    ((a = [] ∧ cur = []) ∨ a.getLast? = some 10) →
+    viewOf (splitLinesAux (a ++ (blanks ++ 10 :: b)) cur) = viewOf (splitLinesAux (a ++ b) cur) := by
+  induction a with
+  | nil =>
+    intro cur ha
+    rcases ha with ⟨_, rfl⟩ | ha
+    · simpa using viewOf_blank_line_start blanks b hb
+    · simp at ha
+  | cons x a ih =>
+    intro cur ha
+    have ha' : (x :: a).getLast? = some 10 := by
+      rcases ha with ⟨h, _⟩ | h
+      · simp at h
+      · exact h
+    by_cases hx : (x == 10) = true
+    · simp only [List.cons_append, splitLinesAux, hx, if_true, viewOf_cons]
+      congr 1
+      apply ih []
+      cases a with
+      | nil => exact .inl ⟨rfl, rfl⟩
+      | cons y ys => right; simpa [List.getLast?_cons_cons] using ha'
+    · simp only [List.cons_append, splitLinesAux, hx]
+      apply ih (x :: cur)
+      cases a with
+      | nil =>
+        simp at ha'
+        simp [ha'] at hx
+      | cons y ys => right; simpa [List.getLast?_cons_cons] using ha'
+
 end Biogo.Fasta
